@@ -304,7 +304,8 @@ CHECKS["C16"] = dict(
           "constructor cross product are run against real constructors, build, projection, regularizer and first "
           "call (ValueError up front, or accepted and finite), synonym twins must behave identically."),
     note="Translator harness/translators/gen_canon.py and Model/PyVal.v (Python semantics) are trusted. 'accepted => "
-         "total and finite' is tested on random dyadic weights, not proved; exceptions from Python typing are "
+         "total and finite' is tested on random dyadic weights and proved only in the form of the C16_total_* facts "
+         "named below; exceptions from Python typing are "
          "invisible to the typed Verify.v model and found by the constructor runs. Theorems about Model/Verify.v: "
          "every conjunct of every accepts_* function has a 'violating it => rejected' theorem in user terms, and an "
          "accepted configuration satisfies the validity hypotheses of the C01 / C04 / C06 / C07 theorems (bridges). "
